@@ -521,3 +521,202 @@ def _mult_tilts_contract():
 
 
 _mult_tilts_contract()
+
+
+# ---------------------------------------------------------------------------------------
+# Plane.__init__: class invariant and frame (C10)
+
+c = contract('lentil.plane.Plane.__init__', level='P')
+
+
+def _pinit_params(ctx):
+    cls = ctx.world.repo.klass('lentil.plane.Plane')
+    n, m = shape2(ctx, 'a')
+    amp = array(ctx, 'amplitude', (n, m), 'float')
+    opd = array(ctx, 'opd', (n, m), 'float')
+    mask = array(ctx, 'mask', (n, m), 'float') if ctx.branch(ctx.fresh_bool('mask_given')) else None
+    from lvc.values import PyDict
+    return {'self': Obj(cls), 'amplitude': amp, 'opd': opd, 'mask': mask, 'pixelscale': None, 'diameter': None,
+            'ptype': None, 'kwargs': PyDict({})}
+
+
+c.params = _pinit_params
+c.modifies = {'self'}
+def _pinit_empty(ctx, env):
+    src = env['mask'] if env['mask'] is not None else env['amplitude']
+    n, m = src.shape
+    i, j = z3.Int(ctx._name('ei')), z3.Int(ctx._name('ej'))
+    return z3.Not(z3.Exists([i, j], z3.And(i >= 0, i < S.z(n), j >= 0, j < S.z(m), S.z(S.ne(src.at((i, j)), 0)))))
+
+
+c.raises['IndexError'] = _pinit_empty
+
+
+@c.post('mask_is_a_binary_copy')
+def _(ctx, env0, env, out):
+    p = env['self']
+    src = env0['mask'] if env0['mask'] is not None else env0['amplitude']
+    mk = p.attrs['_mask']
+    i, j = ints(ctx, 'i', 'j')
+    n, m = src.shape
+    inr = z3.And(i >= 0, i < n, j >= 0, j < m)
+    v = S.z(mk.at((i, j)))
+    ctx.oblige('plane.Plane.__init__::mask_is_not_the_callers_array',
+               env['mask'] is None or mk.cell is not env['mask'].cell)
+    return z3.Implies(inr, v == z3.If(S.z(S.ne(src.at((i, j)), 0)), z3.RealVal(1), z3.RealVal(0)))
+
+
+# numpy's != against threshold 0: boundary uses x > 0; for a binary mask both agree
+c.ctx_flags = {'bbox_quantified': True}
+
+
+# ---------------------------------------------------------------------------------------
+# fit_tilt (frames and representation; the least-squares value itself is a bounded stand-in, C04)
+
+def _fit_contract(tag, nseg, inplace):
+    c = contract('lentil.plane.Plane.fit_tilt#%s' % tag, level='P')
+    c.qualname = 'lentil.plane.Plane.fit_tilt'
+    c.tag = tag
+
+    def params(ctx):
+        p = mk_plane(ctx, 'p', 'array', 'array', 'array', nseg=nseg,
+                     pixelscale=(ctx.fresh_real('ps0'), ctx.fresh_real('ps1')),
+                     tilt=PyList([W.mk_tilt(ctx, 'old%d' % k) for k in range(nseg)]) if 'second' in tag else None)
+        return {'self': p, 'inplace': inplace}
+    c.params = params
+    c.modifies = {'self'} if inplace else set()
+
+    @c.post('records_one_tilt_per_segment')
+    def _(ctx, env0, env, out):
+        res, p0 = out.value, env0['self']
+        before = len(p0.attrs['tilt'].items)
+        after = len(res.attrs['tilt'].items)
+        n_, m_ = p0.attrs['_opd'].shape
+        single = ctx.branch(S.and_(S.eq(n_, 1), S.eq(m_, 1)))       # a one-sample OPD is returned unfitted
+        ok = after == before + (0 if single else nseg)
+        ok = ok and ((res is env['self']) == inplace)
+        ok = ok and all(t.cls.name == 'Tilt' for t in res.attrs['tilt'].items[before:])
+        if not inplace and not single:
+            ok = ok and res.attrs['_opd'].cell is not env['self'].attrs['_opd'].cell \
+                and res.attrs['tilt'] is not env['self'].attrs['tilt']
+        return ok
+    return c
+
+
+_fit_contract('copy', 1, False)
+_fit_contract('inplace', 1, True)
+_fit_contract('segmented-copy', 2, False)
+_fit_contract('second-fit-inplace', 2, True)
+
+
+# ---------------------------------------------------------------------------------------
+# rescale / resample (C17): bookkeeping; the interpolation itself (scipy map_coordinates) is abstract
+
+def util_rescale_call_model(ctx, env):
+    """Abstract lentil.util.rescale: an array of ceil(n * scale) samples per axis whose content is
+    unconstrained, except that it reproduces the input exactly at scale 1 when no unitary renormalisation
+    is requested (spline interpolation at its own knots; library contract of scipy map_coordinates)."""
+    img = A.as_array(ctx, env['img'])
+    scale = env['scale']
+    shape = env.get('shape')
+    if shape is not None or img.ndim != 2:
+        raise S.Unsupported('rescale model: explicit shape / non 2-D')
+    n, m = img.shape
+    N, M = S.ceil_(S.mul(n, scale)), S.ceil_(S.mul(m, scale))
+    ctx.assumptions.add('abstract:lentil.util.rescale (scipy.ndimage.map_coordinates): shape ceil(n*scale), identity at scale 1')
+    out = A.fresh_array(ctx, 'rescaled', (N, M), 'float' if img.dtype != 'complex' else 'complex')
+    ctx.__dict__.setdefault('ghost_rescale_calls', []).append({'img': img.snapshot(), 'scale': scale, 'out': out,
+                                                                'order': env.get('order'), 'unitary': env.get('unitary')})
+    if not env.get('unitary', True):
+        snap = img.snapshot()
+        i, j = z3.Int(ctx._name('rsi')), z3.Int(ctx._name('rsj'))
+        ctx.assume(z3.Implies(S.z(S.eq(scale, 1)), z3.ForAll([i, j], z3.Implies(
+            z3.And(i >= 0, i < S.z(n), j >= 0, j < S.z(m)), S.z(S.eq(out.at((i, j)), snap.at((i, j))))))), axiom=True)
+    return out
+
+
+cr = contract('lentil.util.rescale')
+cr.call_model = util_rescale_call_model
+
+
+def _rescale_contract(tag, amp, opd, nseg, method):
+    c = contract('lentil.plane.Plane.%s#%s' % (method, tag), level='P')
+    c.qualname = 'lentil.plane.Plane.%s' % method
+    c.tag = tag
+
+    def params(ctx):
+        ps = (ctx.fresh_real('ps0'), ctx.fresh_real('ps1'))
+        ctx.assume(z3.And(ps[0] > 0, ps[1] > 0))
+        if method == 'resample':
+            ctx.assume(ps[0] == ps[1])
+        p = mk_plane(ctx, 'p', amp, opd, 'array', nseg=nseg, pixelscale=ps)
+        s = ctx.fresh_real('scale' if method == 'rescale' else 'new_pixelscale')
+        ctx.assume(s > 0)
+        return {'self': p, ('scale' if method == 'rescale' else 'pixelscale'): s}
+    c.params = params
+    # the interpolated mask is abstract here: an empty result makes boundary() raise, which is numpy's
+    # behaviour for an aperture that vanishes under down-sampling, not a bookkeeping error
+    c.may_raise = {'IndexError'}
+
+    @c.post('bookkeeping')
+    def _(ctx, env0, env, out):
+        p0, res = env0['self'], out.value
+        ps = p0.attrs['_pixelscale']
+        s = env0['scale'] if method == 'rescale' else S.truediv(ps[0], env0['pixelscale'])
+        mask0 = p0.attrs['_mask']
+        n, m = mask0.shape[-2], mask0.shape[-1]
+        N, M = S.ceil_(S.mul(n, s)), S.ceil_(S.mul(m, s))
+        name = 'plane.Plane.%s' % method
+        rps = res.attrs['_pixelscale']
+        ctx.oblige('%s::pixelscale_divided_by_scale[%s]' % (name, tag),
+                   z3.And(S.z(S.eq(S.mul(rps[0], s), ps[0])), S.z(S.eq(S.mul(rps[1], s), ps[1]))))
+        mk = res.attrs['_mask']
+        ctx.oblige('%s::mask_shape_is_ceil_n_times_scale[%s]' % (name, tag),
+                   z3.And(S.z(S.eq(mk.shape[-2], N)), S.z(S.eq(mk.shape[-1], M)),
+                          z3.BoolVal(mk.ndim == mask0.ndim and (mk.ndim == 2 or mk.shape[0] == mask0.shape[0]))))
+        for nm in ('_amplitude', '_opd'):
+            a0, a1 = p0.attrs[nm], res.attrs[nm]
+            if a0.ndim == 2:
+                ctx.oblige('%s::%s_shape[%s]' % (name, nm, tag), z3.And(S.z(S.eq(a1.shape[0], N)), S.z(S.eq(a1.shape[1], M))))
+            else:
+                ctx.oblige('%s::%s_scalar_kept[%s]' % (name, nm, tag), a1.ndim == 0 and S.eq(a1.at(()), a0.at(())) is not False)
+        # binary integer mask
+        q = ints(ctx, 'q0', 'q1', 'q2')[:mk.ndim]
+        v = mk.at(tuple(q))
+        ctx.oblige('%s::mask_binary[%s]' % (name, tag), z3.Or(S.z(S.eq(v, 0)), S.z(S.eq(v, 1))))
+        ctx.oblige('%s::mask_integer[%s]' % (name, tag), mk.dtype == 'int')
+        ctx.oblige('%s::segment_slices_recomputed[%s]' % (name, tag), len(res.attrs['_slice'].items) == len(p0.attrs['_slice'].items))
+        ctx.oblige('%s::returns_a_new_plane[%s]' % (name, tag), res is not env['self'])
+        shared = [k for k, v in res.attrs.items() if isinstance(v, (PyList, Arr)) and k in env['self'].attrs
+                  and (v is env['self'].attrs[k] or (isinstance(v, Arr) and v.cell is env['self'].attrs[k].cell))]
+        ctx.oblige('%s::shares_no_mutable_state_with_the_original[%s]' % (name, tag), not shared, info={'shared': shared})
+        # amplitude is divided by the scale exactly once; the OPD is not
+        calls = ctx.__dict__.get('ghost_rescale_calls', [])
+        amp_calls = [k for k in calls if k['order'] == 3]
+        if p0.attrs['_amplitude'].ndim == 2 and amp_calls:
+            i, j = ints(ctx, 'i', 'j')
+            a1 = res.attrs['_amplitude']
+            ctx.oblige('%s::amplitude_divided_by_scale[%s]' % (name, tag),
+                       z3.Implies(z3.And(i >= 0, i < S.z(N), j >= 0, j < S.z(M)),
+                                  S.z(S.eq(S.mul(a1.at((i, j)), s), amp_calls[0]['out'].at((i, j))))))
+        # identity at scale 1
+        from lvc.prove import with_hyp
+        if p0.attrs['_opd'].ndim == 2:
+            i, j = ints(ctx, 'i', 'j')
+            with_hyp(ctx, [S.z(S.eq(s, 1)), i >= 0, i < S.z(n), j >= 0, j < S.z(m)], lambda: (
+                ctx.oblige('%s::identity_at_scale_1.opd[%s]' % (name, tag), S.z(S.eq(res.attrs['_opd'].at((i, j)), p0.attrs['_opd'].at((i, j))))),
+                ctx.oblige('%s::identity_at_scale_1.amplitude[%s]' % (name, tag),
+                           S.z(S.eq(res.attrs['_amplitude'].at((i, j)), p0.attrs['_amplitude'].at((i, j))))
+                           if p0.attrs['_amplitude'].ndim == 2 else True)))
+        # physical extent preserved to within one sample: (ps/s) * ceil(n s) in [ps n, ps n + ps/s)
+        ext = S.mul(rps[0], N)
+        ctx.oblige('%s::extent_within_one_sample[%s]' % (name, tag),
+                   z3.And(S.z(S.ge(ext, S.mul(ps[0], n))), S.z(S.lt(ext, S.add(S.mul(ps[0], n), rps[0])))))
+        return None
+    return c
+
+
+_rescale_contract('arrays', 'array', 'array', 1, 'rescale')
+_rescale_contract('scalar-opd', 'array', 'scalar', 1, 'rescale')
+_rescale_contract('two-segments', 'array', 'array', 2, 'rescale')
+_rescale_contract('arrays', 'array', 'array', 1, 'resample')
